@@ -19,6 +19,14 @@ long long getnxy(long long ncols, long long idxcell, long long *nxy)
        - row number are increasing from bottom to top
        - col number are increasing from left to right
     */
+    /* A grid without columns has no cell (and % 0 stops the process) */
+    if(ncols<1)
+    {
+        nxy[0] = 0;
+        nxy[1] = 0;
+        return GRID_ERROR + __LINE__;
+    }
+
     nxy[0] = idxcell%ncols;
     nxy[1] = (idxcell-nxy[0])/ncols;
     return 0;
@@ -34,8 +42,11 @@ long long getcoord(long long nrows, long long ncols, double xll, double yll,
        - col number are increasing from left to right
        - coordinates correspond to the centre of the cell.
     */
-    long long nxy[2];
-    getnxy(ncols, idxcell, nxy);
+    long long ierr, nxy[2];
+    ierr = getnxy(ncols, idxcell, nxy);
+    if(ierr>0)
+        return ierr;
+
     coord[0] = xll+csz*((double)nxy[0]+0.5);
     coord[1] = yll+csz*((double)(nrows-1-nxy[1])+0.5);
     return 0;
